@@ -240,8 +240,17 @@ def prop(case, rec):
         with open(path, 'ab') as f:
             for hx in case['raw_lines']:
                 f.write(bytes.fromhex(hx) + b'\n')
-    out = os.path.join(_dir(), 'R')
-    r = guard(case, trainer.train, path, out, encoding=enc, coverage=case['coverage'], ngram=case['ngram'], alphabet_size=case['alphabet_size'])
+    out = os.path.join(_dir(), 'R[ab] *v1.0')        # legal rule name with glob / regex metacharacters and a space
+    keep = False
+    if case.get('previous_training'):
+        # the directory already holds the ruleset of an EARLIER training (other lengths, other types): re-training must leave
+        # exactly the files the configuration lists
+        prev = os.path.join(_dir(), 'prev.txt')
+        trainer.write_training_file(prev, ['zzzzzzzzzzzzzzzzzz1234567', '!!!!!!!!!!', 'bob@earlier.example.com', 'abcdefghijklmnopqrstuvwxyz', '19991999'] * 2, 'utf-8')
+        r0 = guard(case, trainer.train, prev, out, encoding='utf-8', coverage=0.6, ngram=3, alphabet_size=100)
+        keep = bool(r0.ok)
+        rec.cls('directory_held_an_earlier_ruleset')
+    r = guard(case, trainer.train, path, out, keep_dir=keep, encoding=enc, coverage=case['coverage'], ngram=case['ngram'], alphabet_size=case['alphabet_size'])
     if not r.ok:
         if r.error is not None and not isinstance(r.error, ZeroDivisionError):
             raise Violation('crash:' + type(r.error).__name__, f'run_trainer raised {r.error!r}', case)
@@ -373,7 +382,7 @@ def cases(draw):
         raw.append((b'$HEX[' + 'ps\u2029x'.encode('utf-8').hex().encode('ascii') + b']').hex())
         raw.append((b'$HEX[' + 'nel\u0085x'.encode('utf-8').hex().encode('ascii') + b']').hex())
     return {'entries': entries, 'encoding': enc, 'raw_lines': raw, 'coverage': draw(st.sampled_from([0.6, 0.3, 1, 0])),
-            'ngram': draw(st.sampled_from([2, 3, 4])), 'alphabet_size': draw(st.sampled_from([100, 30, 10]))}
+            'ngram': draw(st.sampled_from([2, 3, 4])), 'alphabet_size': draw(st.sampled_from([100, 30, 10])), 'previous_training': draw(st.integers(0, 2)) == 0}
 
 
 def run_trained(rec, seed, shard, nshards, tier):
